@@ -9,6 +9,7 @@
 #include "iora/core/logger.hpp"
 #include "iora/parsers/json.hpp"
 #include <condition_variable>
+#include <cstdio>
 #include <fstream>
 #include <mutex>
 #include <set>
@@ -227,17 +228,31 @@ private:
   {
     try
     {
-      std::ofstream file(_filename);
-      if (file)
+      // Never rewrite the live file in place: opening it with truncation and
+      // dying before the write completes would leave an empty/partial file (and
+      // the next start would silently begin with an empty store). Write a sibling
+      // temp file and rename it over the target (atomic on POSIX).
+      const std::string tmpName = _filename + ".tmp";
+      std::string jsonData = _store.dump(2);
+      bool written = false;
       {
-        std::string jsonData = _store.dump(2);
-        file << jsonData;
+        std::ofstream file(tmpName, std::ios::trunc);
+        if (file)
+        {
+          file << jsonData;
+          file.flush();
+          written = file.good();
+        }
+      }
+      if (written && std::rename(tmpName.c_str(), _filename.c_str()) == 0)
+      {
         iora::core::Logger::debug("JsonFileStore: Wrote " + std::to_string(jsonData.length()) +
                                   " bytes to " + _filename);
       }
       else
       {
-        iora::core::Logger::error("JsonFileStore: Failed to open " + _filename + " for writing");
+        std::remove(tmpName.c_str());
+        iora::core::Logger::error("JsonFileStore: Failed to write " + _filename);
       }
     }
     catch (const std::exception &e)
